@@ -80,6 +80,7 @@ func C05(c *Ctx) {
 	c.R.Rule("C05-R15", "E7", "hosts install and store a walk's end state whatever stopped the walk", 1)
 	c05HostsIgnoreStopReason(c, "C05-R15")
 	c.shareRule("C14", "C14-R3", "C05-R16", "the single-loop crew delivers what a walk emitted in the order it was emitted (a first-in first-out queue)")
+	c.shareRule("C04", "C04-R18", "C05-R17", "whether a message is consumed does not depend on the context: the engine never consults it")
 	c.shareRule("C02", "C02-R8", "C05-R10", "absent bindings are matched as empty bindings: a machine without bindings still takes its pattern branches")
 	c.R.Rule("C05-R8", "E1", "Walk reads the batch of messages it is given and never writes it (hosts offer one batch to several machines and re-deliver sub-slices)", 1)
 	c.batchUntouched("C05-R8")
